@@ -182,12 +182,14 @@ class SparselyBin(Factory, Container):
                 self.origin,
             )
             out.entries = self.entries + other.entries
-            out.bins = self.bins.copy()
-            for i, v in other.bins.items():
-                if i in out.bins:
-                    out.bins[i] = out.bins[i] + v
+            out.bins = {}
+            for i in set(self.bins).union(other.bins):
+                if i in self.bins and i in other.bins:
+                    out.bins[i] = self.bins[i] + other.bins[i]
+                elif i in self.bins:
+                    out.bins[i] = self.bins[i].copy()
                 else:
-                    out.bins[i] = v
+                    out.bins[i] = other.bins[i].copy()
             return out.specialize()
 
         raise ContainerException(f"cannot add {self.name} and {other.name}")
